@@ -93,11 +93,12 @@ func genesisEq(id string, g1, g2 *types.GenesisState) {
 // genesisState: delegations, a mixed unbonding bucket, pending redelegations (optionally a
 // merged fan-in record) and a weight-change snapshot.
 func genesisState(k int) *State {
-	st := Build([]Pos{{0, 0, 0}, {0, 1, 0}, {1, 1, 0}}, Opts{NVals: 3, Rewards: true, Params: true})
+	st := Build([]Pos{{0, 0, 0}, {0, 1, 0}, {1, 1, 0}, {1, 0, 1}}, Opts{NVals: 3, NDenoms: 2, Rewards: true, Params: true})
 	e := st.E
 	c1 := nd.TimeRange("c1", TLo, THi)
 	nd.Assume(c1.After(st.T0))
-	InstallUnbonding(e, 0, c1, []Entry{{0, 0, nd.IntRange("q1", "1", Pow30)}, {1, 0, nd.IntRange("q2", "1", Pow30)}})
+	// one shared bucket: entries of two validators and two denoms of the same validator
+	InstallUnbonding(e, 0, c1, []Entry{{0, 0, nd.IntRange("q1", "1", Pow30)}, {1, 0, nd.IntRange("q2", "1", Pow30)}, {0, 1, nd.IntRange("q3", "1", Pow30)}})
 	rc := nd.TimeRange("rc1", TLo, THi)
 	nd.Assume(rc.After(st.T0))
 	InstallRedelegation(e, 0, 0, 1, 0, nd.IntRange("r1", "1", Pow30), rc)
